@@ -264,6 +264,33 @@ def norm(case):
     prove("unit", A.same_unit_quantity(r.unit, v.unit))
 
 
+@unit("C09", "Vector.norm.current_components", targets=[VEC + ":Vector.norm"], uses=USES,
+      cases=[{"label": "nvec=%d,%s" % (n, how), "nvec": n, "how": how} for n in (2, 3) for how in ("component_handle", "result_mutated")],
+      replay=N.replay_norm)
+def norm_history(case):
+    """norm is a function of the components as they are NOW: an earlier norm call, an in-place update of a component through
+    a handle kept by the caller, or an in-place update of an earlier result must not show in a later result"""
+    dims = A.Dims()
+    v = mk_vector("v", dims, case["nvec"])
+    r0 = v.norm
+    if case["how"] == "component_handle":
+        h = v.y
+        h += h  # Array.__iadd__ doubles the values in place and keeps the unit (C17); no attribute of v is re-assigned
+        prove("same_component_object", v.y is h)
+    else:
+        r0 += r0
+    r = v.norm
+    idx = A.skolem_index(v.shape)
+    p = pv(v, idx)
+    g = r._array.elem(idx) * r.unit.scale
+    tot = p[0] * p[0]
+    for q in p[1:]:
+        tot = tot + q * q
+    prove("nonnegative", g >= 0)
+    prove("value", g * g == tot)
+    prove("fresh_result", r is not r0 and not snp.shares_memory(r._array, r0._array))
+
+
 _UNITREL = ("same", "compatible")
 
 
